@@ -1016,6 +1016,9 @@ func wantRuntime(rt corpus.Runtime, thorough bool) bool {
 	return rt == corpus.Gogo || rt == corpus.GV2
 }
 
+// Pre, if set, runs in the parent process before the corpus shards (property-specific extra clauses).
+var Pre func(r *ev.Run)
+
 // Main is the entry point shared by the per-property binaries.
 func Main(prop, level string, rule string, assumptions ...string) {
 	if sh := ev.ShardFromArgs(); sh != nil {
@@ -1024,6 +1027,9 @@ func Main(prop, level string, rule string, assumptions ...string) {
 	}
 	r := ev.Start(prop, level)
 	reportQuarantine(r)
+	if Pre != nil {
+		Pre(r)
+	}
 	r.RunShards(32, runtime.NumCPU(), 8<<30)
 	r.Rule(rule)
 	for _, a := range assumptions {
